@@ -991,3 +991,50 @@ PROPS["C08"] = {
     "nontrivial": lambda c, r: True,
     "explanation": "the model's totality is Lean's; the real code is executed on the adversarial stream with catch_unwind per case and process-abort isolation; determinism is checked by repeated in-process and fresh-process runs",
 }
+
+
+# ---- C06 ---------------------------------------------------------------------------------------------------
+C06_JSX = ["<Comp>{f()}</Comp>", "<Comp>{val}</Comp>", "<><Comp>{f()}</Comp><Foo>{g()}</Foo></>", "<div v-show={x}>{y}</div>", "<Comp on={{click: fn1}} {...obj}/>",
+           "<Unk v-model={val}>t</Unk>", "<Comp>{obj.render()}</Comp>", "<Comp a={<Foo>{h()}</Foo>}>{k()}</Comp>", "<input v-model={$event}/>"]
+C06_CTX = ["%s;", "const v = %s;", "function f() { return %s; }", "function f(a = %s) { return a; }", "const r = () => %s;", "const r = (a = %s) => a;",
+           "const r = (a) => { return %s; };", "class K { field = %s; }", "class K { static s = %s; m(a = %s) { return %s; } }", "class K { get g() { return %s; } static { init(%s); } }",
+           "for (const i of list) { out.push(%s); }", "for (const i of list) out.push(%s);", "if (x) y = %s; else z = %s;", "switch (k) { case 1: r = %s; break; default: r = %s; }",
+           "{ { const inner = %s; } }", "const o = { m() { return %s; }, p: %s };", "try { a = %s; } catch (e) { b = %s; }", "label: while (x) { y = %s; break label; }",
+           "export default %s;", "export const e = [%s, %s];", "const nested = () => () => %s;", "function outer() { function inner() { return %s; } return inner; }",
+           "namespace N { export const c = %s; }", "const t = cond ? %s : %s;", "x = %s, y = %s;"]
+C06_SIBLINGS = ["", "function g() { return 1; }", "const q = () => 2;", "val2 = 5;", "const _createVNode = 1, _slot = 2, _isSlot = 3, _Fragment = 4, _slot2 = 5;",
+                "function _isSlot() {}", "let $event = 0;", "const h2 = () => { let _slot; return _slot; };", "class C2 { m() { return 1; } }", "(<Foo>{g2()}</Foo>);"]
+
+
+def c06_cases(tier, seed):
+    r = gen.Rng(seed)
+    run = corpus_cases("C06") + fixture_cases()
+    n = 0
+    for ji, jsx in enumerate(C06_JSX):
+        for ci, ctx in enumerate(C06_CTX):
+            for si in range(len(C06_SIBLINGS)):
+                n += 1
+                if tier == "quick" and (n % 4) and si:
+                    continue
+                before, after = C06_SIBLINGS[si], C06_SIBLINGS[(si * 3 + ji) % len(C06_SIBLINGS)]
+                ts = "namespace" in ctx
+                body = ctx.replace("%s", jsx)
+                src = gen.PRELUDE + before + "\n" + body + "\n" + after + "\n"
+                run.append({"id": "e%d" % len(run), "src": src, "tsx": ts, "opts": {"optimize": bool(n % 2), "transformOn": True, "enableObjectSlots": n % 7 != 0}})
+    prof = dict(PROPS_PROFILES["C03"])
+    prof["contexts"] = {"expr-stmt": 3, "const": 3, "fn-body": 3, "arrow-expr": 3, "arrow-block": 2, "assign": 2, "nested-block": 2, "class-method": 2,
+                        "export-default": 1, "loop": 2, "class-field": 3, "default-param": 3}
+    prof["p_distractor"] = 0.6
+    prof["n_stmts"] = [(2, 4), (3, 3), (4, 2)]
+    mods, hist = gen_modules(r, budget(tier, 2000, 50000), prof, std_opts)
+    run += mods
+    return [], run, {"rule": "fixtures + product of 9 lowerings that need a helper/temporary (call child, identifier child, fragments, directives, transformOn, v-model, element-valued attribute, `$event` target) x 25 syntactic contexts (module level, function/arrow bodies, default parameters of functions and arrows, class fields/static fields/methods/accessors/static blocks, loops with and without block, if/else, switch cases, nested blocks, object methods, try/catch, labels, exports, nested functions, namespaces, conditionals, sequences) x 10 sibling statements before/after (other functions/arrows, assignments, user declarations named _createVNode/_slot/_isSlot/_Fragment/$event, other JSX) [siblings sampled 1/4 in quick] + %d generated modules biased to temporaries in nested contexts" % len(mods),
+                     "histogram": dict(hist.most_common(30))}
+
+
+PROPS["C06"] = {
+    "theorems": ["drainInto_clears", "drainInto_shape", "C06_stmts_scoped", "C06_stmts_result", "C06_arrow_params_outward", "C06_fresh_distinct",
+                 "isGenBind_fresh", "C06_module_declares_everything", "C06_helper_declared_when_used"],
+    "cases": c06_cases,
+    "explanation": "oracle: a scope analysis of the real output: every use of a generated identifier has a declaration (vue import, helper import, `function _isSlot`, let/const declarator, parameter) in a scope enclosing the use; a default-parameter value does not see the body's declarations; a let/const declaration precedes every statement that eagerly reads it; every imported/declared generated binding is used; generated and user bindings are distinguished by SWC's syntax contexts (identity = name + context)",
+}
